@@ -7,7 +7,7 @@ working tree twice on every run:
      running them on the model's state IS Model.fm_step / po_step for every state and argument;
  (b) differential execution: the extracted model vs the real code on the same histories (finds the concrete failing
      history when a fact breaks, and covers what the vocabulary abstracts: std::vector, std::string ==, Any)."""
-import itertools, json, os, re, sys
+import itertools, json, os, re, struct, sys
 import vlib
 sys.path.insert(0, os.path.dirname(os.path.abspath(__file__)))
 import factgen  # noqa: E402
@@ -72,9 +72,73 @@ def oracle_P(ops):
     return " ; ".join(outs)
 
 
+def f32(x):
+    return struct.unpack("f", struct.pack("f", x))[0]
+
+
+# call sites whose argument type differs from KEY (argument codes 1..6, mirrored in harness.cpp): mode -> (label, arguments, conversion)
+WIDE = {
+    "fd": ("FlatMap<float,int> called with double arguments", [0.1, 0.7, f32(0.1), f32(0.7), 1.5, 2.25], f32),
+    "hi": ("FlatMap<short,int> called with int arguments", [1, -2, 65537, 65534, 5, 300], lambda x: ((x + 32768) % 65536) - 32768),
+    "ui": ("FlatMap<unsigned char,int> called with int arguments", [1, 254, 257, -2, 5, 6], lambda x: x % 256),
+    "sc": ("FlatMap<string,int> called with const char* arguments", ["k1", "k2", "k1", "k2", "k5", "k6"], str),
+}
+
+
+def conv_table(mode):
+    """argument code -> canonical code of the converted key (the smallest code converting to the same KEY); computed here
+    independently of the harness (struct for float rounding, modular wrap for short / unsigned char)"""
+    _, args, cv = WIDE[mode]
+    keys = [cv(a) for a in args]
+    return ",".join("%d=%d" % (c + 1, min(d + 1 for d in range(6) if keys[d] == keys[c])) for c in range(6))
+
+
+def convert_ops(tbl, ops):
+    t = dict((int(a), int(k)) for a, k in (e.split("=") for e in tbl.split(",") if e))
+    out = []
+    for tok in ops:
+        f = tok.split(":")
+        if f[0] in ("at", "cat", "idx", "set", "has", "erase"):
+            f[1] = str(t.get(int(f[1]), int(f[1])))
+        out.append(":".join(f))
+    return out
+
+
+def split_case(case):
+    """-> (prefix kept when shrinking, ops)"""
+    t = case.split()
+    return (" ".join(t[:2]), t[2:]) if t[0] == "C" else (t[0], t[1:])
+
+
 def oracle(case):
     t = case.split()
+    if t[0] == "C":        # reference map keyed by the CONVERTED key
+        return oracle_F(convert_ops(t[1], t[2:]))
     return oracle_F(t[1:]) if t[0] == "F" else oracle_P(t[1:])
+
+
+def gen_C(r, tbl, maxlen):
+    ops = []
+    for _ in range(r.randint(1, maxlen)):
+        k = r.randint(1, 4) if r.random() < 0.85 else r.randint(5, 6)
+        c = r.random()
+        if c < 0.32: ops.append("set:%d:%d" % (k, r.randint(1, 99)))
+        elif c < 0.44: ops.append("idx:%d" % k)
+        elif c < 0.58: ops.append("erase:%d" % k)
+        elif c < 0.68: ops.append("at:%d" % k)
+        elif c < 0.76: ops.append("cat:%d" % k)
+        elif c < 0.86: ops.append("has:%d" % k)
+        elif c < 0.94: ops.append("ati:%d" % r.randint(0, 4))
+        elif c < 0.98: ops.append("size")
+        else: ops.append("clear")
+    return "C %s %s" % (tbl, " ".join(ops))
+
+
+def exhaustive_C(tbl, length):
+    alpha = ["set:1:5", "set:3:7", "set:2:6", "idx:4", "erase:3", "erase:2", "at:3", "has:4", "cat:1", "ati:1"]
+    for n in range(1, length + 1):
+        for t in itertools.product(alpha, repeat=n):
+            yield "C %s %s" % (tbl, " ".join(t))
 
 
 # ------------------------------------------------------------------ generators
@@ -119,6 +183,66 @@ def exhaustive_F(length):
             yield "F " + " ".join(t)
 
 
+def report(ctx, exe, cases, impls, mism, crashes):
+    for label, (rc, err, n) in crashes.items():
+        ctx.violation("harness %s crashed (rc=%d) — sanitizer/abort on the real code" % (label, rc),
+                      {"label": label, "stderr_tail": err, "case": cases[n] if n < len(cases) else None,
+                       "required": "no crash, no sanitizer report"}, found_input=n < len(cases))
+    seen = set()
+    for (i, label, il, ml) in mism[:50]:
+        if (label in crashes) or label in seen:
+            continue
+        seen.add(label)
+        mode = [a for (l, e, a) in impls if l == label][0]
+        kind, ops = split_case(cases[i])
+
+        def fails(ops, mode=mode, kind=kind):
+            line = kind + " " + " ".join(ops)
+            rc, out, err = ctx.run_exe(exe, mode, stdin=line + "\n")
+            return out.strip("\n") != oracle(line)
+
+        exp = oracle(cases[i])
+        if il != exp:
+            small = vlib.shrink_list(ops, fails)
+            line = kind + " " + " ".join(small)
+            rc, out, err = ctx.run_exe(exe, mode, stdin=line + "\n")
+            shown = "ParameterizedObject" if kind == "P" else label
+            ctx.violation("%s disagrees with the reference insertion-ordered map" % shown,
+                          {"label": shown, "case": line, "observed": out.strip(), "required": oracle(line),
+                           "model": ml if small == ops else None, "original_case": cases[i]})
+        else:
+            ctx.broken.append("correspondence C10 model vs %s on case %r: impl=%r model=%r (impl satisfies the reference map)"
+                              % (label, cases[i], il[:200], ml[:200]))
+
+
+def wide_arguments(ctx, model, exe, r, bad_facts):
+    """instantiations whose call sites pass an argument of another type than KEY: the model converts the argument to KEY
+    (Model.fm_step_conv with the table as data), the oracle is the reference map keyed by the converted key"""
+    tables = {m: conv_table(m) for m in WIDE}
+    tbl = tables["fd"]
+    for m in WIDE:
+        rc, out, err = ctx.run_exe(exe, [m, "--table"])
+        if out.strip() != tables[m] or tables[m] != tbl:
+            ctx.broken.append("argument->key conversion table of mode %s: harness (real static_cast) %r, python %r, expected %r"
+                              % (m, out.strip(), tables[m], tbl))
+    cases = [gen_C(r, tbl, 40) for _ in range(ctx.pick(1200, 12000))]
+    exh = list(exhaustive_C(tbl, ctx.pick(3, 4)))
+    cases += exh
+    impls = [(WIDE[m][0], exe, [m]) for m in ("fd", "hi", "ui", "sc")]
+    mism, crashes, mlines = vlib.differential(ctx, cases, model, impls)
+    ctx.count(len(cases) * len(impls))
+    for c, ml in zip(cases, mlines):
+        if len(set(x.split("|")[1] for x in ml.split(" ; "))) >= 3:
+            ctx.nontriv(c)
+    ctx.cov["wide_argument_runs"] = {"conversion_table": tbl, "random": len(cases) - len(exh), "exhaustive": len(exh),
+                                     "instantiations": {m: {"label": WIDE[m][0], "arguments": [repr(a) for a in WIDE[m][1]]} for m in WIDE},
+                                     "mismatches": len(mism)}
+    ctx.sample({"case": cases[0], "model_and_impl": mlines[0][:300]})
+    report(ctx, exe, cases, impls, mism, crashes)
+    if bad_facts and not mism and not crashes:
+        ctx.cov["wide_argument_runs"]["note"] = "no failing history among the wide-argument runs either"
+
+
 FACT_FILES = ("FactsCheckFM", "FactsCheckPO", "PropertiesFacts", "PropertiesFactsPO")
 
 
@@ -139,6 +263,22 @@ def regen_facts(ctx):
                                "instantiations_agree": facts.get("flatmap", {}).get("ii") == facts.get("flatmap", {}).get("ss")
                                and facts.get("po", {}).get("int") == facts.get("po", {}).get("T"),
                                "notes": facts.get("notes")}
+    # closed member lists: say which declarations differ from coq/C10/FactsDecls.v (the Coq obligation is facts_*_declared)
+    try:
+        txt = open(os.path.join(ctx.coqdir, "FactsDecls.v")).read()
+        diff = {}
+        for cls, name in (("FlatMap", "fm_declared_expected"), ("ParameterizedObject", "po_declared_expected")):
+            part = txt.split("Definition " + name, 1)[1].split("Definition ", 1)[0]
+            exp = [x.replace('""', '"') for x in re.findall(r'^\s*\[?\s*(?:\(\*.*?\*\)\s*)*"((?:[^"]|"")*)"', part, re.M)]
+            got = (facts.get("declared") or {}).get(cls) or []
+            if exp != got:
+                diff[cls] = {"added_or_changed": [x for x in got if x not in exp], "missing": [x for x in exp if x not in got]}
+        ctx.cov["declared_members_diff"] = diff
+        if diff:
+            ctx.log("declared members differ from the closed list coq/C10/FactsDecls.v (obligations facts_fm_declared / "
+                    "facts_po_declared): %s" % json.dumps(diff)[:1500])
+    except Exception as ex:
+        ctx.log("could not diff the declared member lists: %r" % (ex,))
     ctx.trusted.append("fact extractor props/C10/factgen.py + tools/sxast/sxast.py over `clang++ -std=c++11 -fsyntax-only -Xclang "
                        "-ast-dump=json -Xclang -ast-dump-filter=FlatMap|ParameterizedObject` of a TU using every member of "
                        "FlatMap<int,int>, FlatMap<string,string> and ParameterizedObject (T=int and a fresh struct): statement "
@@ -207,41 +347,15 @@ def run(ctx):
     ctx.cov["case_mix"] = {"corpus": ncorp, "random": nrand, "exhaustive_flatmap_histories": len(exh)}
     ctx.rule = ("histories over key/name alphabets of size 2-4 (random, length<=60) plus all FlatMap histories up to length %d over a "
                 "14-op alphabet on 2 keys (incl. the const overloads through a const FlatMap&); each run on FlatMap<int,int>, <string,string>, <string,vector<int>> and ParameterizedObject "
-                "(int/float/string/vec3f values); non-trivial = the container passed through >=3 distinct contents" % ctx.pick(4, 5))
+                "(int/float/string/vec3f values); plus FlatMap<float,int>/<short,int>/<unsigned char,int>/<string,int> called with double / out-of-range and negative int / const char* "
+                "arguments (random length<=40 and all histories up to length %d over a 10-op alphabet, two spellings per key); "
+                "non-trivial = the container passed through >=3 distinct contents" % (ctx.pick(4, 5), ctx.pick(3, 4)))
     for c in cases[ncorp:ncorp + 3]:
         ctx.sample({"case": c, "model_and_impl": mlines[cases.index(c)][:300]})
-    for label, (rc, err, n) in crashes.items():
-        ctx.violation("harness %s crashed (rc=%d) — sanitizer/abort on the real code" % (label, rc),
-                      {"label": label, "stderr_tail": err, "case": cases[n] if n < len(cases) else None,
-                       "required": "no crash, no sanitizer report"}, found_input=n < len(cases))
-    seen = set()
-    for (i, label, il, ml) in mism[:50]:
-        if (label in crashes) or label in seen:
-            continue
-        seen.add(label)
-        mode = [a for (l, e, a) in impls if l == label][0]
-        kind = cases[i][0]
-
-        def fails(ops, mode=mode, kind=kind):
-            line = kind + " " + " ".join(ops)
-            rc, out, err = ctx.run_exe(exe, mode, stdin=line + "\n")
-            return out.strip("\n") != oracle(line)
-
-        ops = cases[i].split()[1:]
-        exp = oracle(cases[i])
-        if il != exp:
-            small = vlib.shrink_list(ops, fails)
-            line = kind + " " + " ".join(small)
-            rc, out, err = ctx.run_exe(exe, mode, stdin=line + "\n")
-            shown = "ParameterizedObject" if kind == "P" else label
-            ctx.violation("%s disagrees with the reference insertion-ordered map" % shown,
-                          {"label": shown, "case": line, "observed": out.strip(), "required": oracle(line),
-                           "model": ml if small == ops else None, "original_case": cases[i]})
-        else:
-            ctx.broken.append("correspondence C10 model vs %s on case %r: impl=%r model=%r (impl satisfies the reference map)"
-                              % (label, cases[i], il[:200], ml[:200]))
+    report(ctx, exe, cases, impls, mism, crashes)
+    wide_arguments(ctx, model, exe, r, bad_facts)
     ctx.cov["mismatches"] = len(mism)
-    if bad_facts and not mism and not crashes:
+    if bad_facts and not ctx.violations:
         ctx.log("no concrete failing history found although source facts are broken: reported as no-failing-input-found")
     ctx.trusted += ["correspondence harness harness/C10/harness.cpp + generators/oracle in props/C10/check.py (g++ -O1, ASan+UBSan)",
                     "modelled, not verified: std::vector, std::find_if, std::stable_partition, std::shared_ptr, Any's typeid comparison "
